@@ -192,6 +192,43 @@ def run(tier, res, replay=None):
     # cores in which only some assembly types are grouped: the flows the
     # optimiser writes into the input of the orificed sweep
     ajobs = []
+    pjobs = []
+    if not replay:
+        # the real set-up of the response data: two grouped types whose
+        # positions interleave in id order (or are requested in the other
+        # order), response tables with different pressure-drop curves, a
+        # pressure-drop limit binding for one of them
+        npj = 16 if tier == 'quick' else 120
+        for k in range(npj):
+            n = rng.choice([4, 7, 7])
+            if k % 3 == 0:
+                names = ['ta' if i % 2 == 0 else 'tb' for i in range(n)]
+            elif k % 3 == 1:
+                names = ['tb' if i % 2 == 0 else 'ta' for i in range(n)]
+            else:
+                names = [rng.choice(['ta', 'tb']) for _ in range(n)]
+                names[0], names[1] = 'tb', 'ta'
+            pf = [round(rng.uniform(0.3, 1.0), 3) for _ in range(n)]
+            # the tighter type carries the larger powers in half the cases
+            tight = rng.choice(['ta', 'tb'])
+            if k % 2 == 0:
+                pf = [round(f * (1.3 if names[i] == tight else 0.8), 3)
+                      for i, f in enumerate(pf)]
+            C = {'ta': 820.0, 'tb': 820.0}
+            C[tight] = rng.choice([2400.0, 3600.0, 5200.0])
+            pavg = 2.0e4 * 7 * sum(pf) / n
+            mavg = pavg / orifice.CP / 150.0
+            dp_tight = C[tight] * mavg ** 1.8 / 1e6
+            mode = rng.choice(['binding', 'binding', 'loose', 'none'])
+            spec = {'seed': rng.randrange(1 << 30), 'names': names, 'pf': pf,
+                    'order': rng.choice([['ta', 'tb'], ['tb', 'ta']]),
+                    'ng': rng.choice([2, 3]), 'C': C,
+                    'K': {'ta': 1.55e-3, 'tb': rng.choice([1.5e-3, 1.7e-3])},
+                    'mode': mode}
+            if mode != 'none':
+                spec['dpl'] = float(dp_tight * (
+                    rng.uniform(1.05, 1.6) if mode == 'binding' else 8.0))
+            pjobs.append((f'param{k}-n{n}-{mode}', spec))
     if not replay:
         na = 12 if tier == 'quick' else 60
         for k in range(na):
@@ -211,11 +248,14 @@ def run(tier, res, replay=None):
                 'objective': ['peak coolant temp', 'peak clad MW temp',
                               'peak fuel temp', 'peak clad ID temp'][k % 4],
                 'ng': rng.choice([2, 3]) if len(grouped) >= 4 else 2}))
+    elif 'order' in jobs[0][1]:
+        pjobs, jobs = jobs, []
     elif 'names' in jobs[0][1]:
         ajobs, jobs = jobs, []
     with ProcessPoolExecutor(max_workers=common.NCPU) as ex:
         traces = list(ex.map(orifice.history, jobs, chunksize=8))
         traces += list(ex.map(orifice.apply_history, ajobs))
+        traces += list(ex.map(orifice.parametric_history, pjobs))
     # ---- TLC validates every recorded history
     nsh = min(common.NCPU, max(1, len(traces) // 50))
     shards = [traces[i::nsh] for i in range(nsh)]
@@ -228,7 +268,8 @@ def run(tier, res, replay=None):
                                  tag=f'orf{i}')
     with ThreadPoolExecutor(max_workers=nsh) as ex:
         outs = list(ex.map(val, enumerate(shards)))
-    stats = {'group_ok': 0, 'group_error': 0, 'dist_ok': 0, 'dist_error': 0,
+    stats = {'param_runs': 0, 'param_with_limit': 0,
+             'param_flow_at_limit': 0, 'group_ok': 0, 'group_error': 0, 'dist_ok': 0, 'dist_error': 0,
              'regroup_moved': 0, 'nonpositive_flow': 0, 'limited': 0,
              'model_agree': 0, 'model_differs': 0}
     for sh, out in zip(shards, outs):
@@ -249,8 +290,15 @@ def run(tier, res, replay=None):
             for e in tr['ev']:
                 if e['e'] == 'Regroup' and e['before'] != e['after']:
                     stats['regroup_moved'] += 1
-                if e['e'] == 'DEnd' and e['out'] == 'ok':
-                    pass
+                if tr['label'].startswith('param') and e['e'] == 'DStart':
+                    stats['param_runs'] += 1
+                    if any(x > 0 for x in e['lim']):
+                        stats['param_with_limit'] += 1
+                    end = tr['ev'][-1]
+                    if end['e'] == 'DEnd' and end['out'] == 'ok' and any(
+                            0 < lm <= mm + 2 for lm, mm in
+                            zip(e['lim'], end['m'])):
+                        stats['param_flow_at_limit'] += 1
             sp = inf['spec']
             if 'model' in sp and sp['model'] == 'ok':
                 last = [e for e in tr['ev'] if e['e'] == 'Pass']
@@ -271,6 +319,9 @@ def run(tier, res, replay=None):
         common.cleanup(out['dir'])
     res.cov['histories'] = stats
     if not replay:
+        if stats['param_with_limit'] == 0 or stats['param_flow_at_limit'] == 0:
+            raise common.MachineryError(
+                f'no run_parametric history reached its limit: {stats}')
         if stats['group_error'] == 0 or stats['dist_ok'] == 0:
             raise common.MachineryError(f'vacuous exploration: {stats}')
     t0 = next(t for t in traces if len(t['ev']) > 4)
